@@ -1146,7 +1146,12 @@ where
         let mut safe = self.safe.write().await;
         if let None = safe.active_blob {
             let blob_opt = safe.blobs.write().await.pop();
-            if let Some(blob) = blob_opt {
+            if let Some(mut blob) = blob_opt {
+                // The index of a closed blob may already be dumped to disk; an active blob needs it in memory to accept writes
+                if let Err(e) = blob.load_index().await {
+                    safe.blobs.write().await.push(blob).await;
+                    return Err(e);
+                }
                 safe.active_blob = Some(Box::new(ASRwLock::new(blob)));
                 Ok(())
             } else {
